@@ -48,6 +48,12 @@ def main():
         print(out)
         return 2
     res = {"seed": name, "property": meta["property"], "ran": []}
+    if not confirm and os.path.exists(os.path.join(sd, "result.json")):
+        old = json.load(open(os.path.join(sd, "result.json")))
+        for k in ("demo_without_patch", "demo_with_patch", "existing_tests_with_patch"):
+            if k in old:
+                res[k] = old[k]
+        res["ran"] = [r for r in old.get("ran", []) if "./check" not in r]
     try:
         patch = os.path.join(sd, "patch.diff")
         if confirm:
